@@ -271,6 +271,228 @@ theorem C13_copy : ∀ (donor recv : List (String × Nat)) (mds : List (Nat × M
           obtain ⟨id, hid, h5, h6⟩ := h4 k v (by rw [alookup_aset_other _ _ _ _ (fun e => hne e.symm)]; exact hr) hd
           exact ⟨id, hid, by omega, h6⟩
 
+/-- content of the Metadata object with this id -/
+def contentOf (v : Nat) (mds : List (Nat × MdObj)) : String :=
+  match nlookup v mds with
+  | some o => o.content
+  | none => ""
+
+theorem contentOf_congr (v : Nat) (a b : List (Nat × MdObj)) (h : nlookup v a = nlookup v b) : contentOf v a = contentOf v b := by
+  unfold contentOf; rw [h]
+
+theorem alookup_mem' {β : Type} (k : String) (v : β) : ∀ (l : List (String × β)), alookup k l = some v → (k, v) ∈ l
+  | [], h => by simp [alookup] at h
+  | (k', w) :: r, h => by
+    simp only [alookup] at h
+    split at h
+    · next e => cases h; subst e; exact List.mem_cons_self
+    · exact List.mem_cons_of_mem _ (alookup_mem' k v r h)
+
+/-- an entry of the merged dict is an entry the dict had before the loop, or a copy allocated during the loop -/
+theorem key_of_new_id (opt : MdOpt) (hopt : opt = .copy ∨ opt = .copyover) :
+    ∀ (donor recv : List (String × Nat)) (mds : List (Nat × MdObj)) (next : Nat) (k : String) (id : Nat),
+    alookup k (mergeDict opt recv donor mds next).1 = some id → alookup k recv = some id ∨ next ≤ id
+  | [], recv, mds, next, k, id, h => Or.inl h
+  | (k0, v0) :: rest, recv, mds, next, k, id, h => by
+    by_cases hskip : opt = .copy ∧ (alookup k0 recv).isSome = true
+    · have hstep : mergeDict opt recv ((k0, v0) :: rest) mds next = mergeDict opt recv rest mds next := by
+        simp only [mergeDict, List.foldl_cons, mergeStep, hskip.1, hskip.2, if_true]
+      rw [hstep] at h
+      exact key_of_new_id opt hopt rest recv mds next k id h
+    · have hstep : ∃ c, mergeDict opt recv ((k0, v0) :: rest) mds next =
+          mergeDict opt (aset k0 next recv) rest (mds ++ [(next, { name := k0, content := c })]) (next + 1) := by
+        cases hopt with
+        | inl e =>
+          subst e
+          have : (alookup k0 recv).isSome = false := by
+            cases h : (alookup k0 recv).isSome with
+            | false => rfl
+            | true => exact absurd ⟨rfl, h⟩ hskip
+          exact ⟨contentOf v0 mds, by simp only [mergeDict, List.foldl_cons, mergeStep, this, Bool.false_eq_true, if_false]; rfl⟩
+        | inr e => subst e; exact ⟨contentOf v0 mds, by simp only [mergeDict, List.foldl_cons, mergeStep]; rfl⟩
+      obtain ⟨c, hc⟩ := hstep
+      rw [hc] at h
+      cases key_of_new_id opt hopt rest _ _ _ k id h with
+      | inr h1 => exact Or.inr (by omega)
+      | inl h1 =>
+        by_cases hk : k = k0
+        · subst hk; rw [alookup_aset_same] at h1; cases h1; exact Or.inr (Nat.le_refl _)
+        · rw [alookup_aset_other _ _ _ _ hk] at h1; exact Or.inl h1
+
+theorem nlookup_append {β : Type} (i : Nat) (a b : List (Nat × β)) :
+    nlookup i (a ++ b) = match nlookup i a with
+      | some v => some v
+      | none => nlookup i b := by
+  induction a with
+  | nil => simp [nlookup]
+  | cons kv r ih =>
+    obtain ⟨k, v⟩ := kv
+    simp only [List.cons_append, nlookup]
+    split
+    · rfl
+    · exact ih
+
+/-- C13, the two copy options hand over INDEPENDENT COPIES WITH EQUAL CONTENT: every Metadata object that existed
+    before is untouched (the donor root keeps its own objects, with their content), and every entry of the receiver that
+    refers to a new object refers to one named by its key whose content is the content of the donor's object under that
+    key.  (`hfresh`: object ids are allocated from `next` upwards.) -/
+theorem C13_copies_content (opt : MdOpt) (hopt : opt = .copy ∨ opt = .copyover) :
+    ∀ (donor recv : List (String × Nat)) (mds : List (Nat × MdObj)) (next : Nat),
+    (donor.map (·.1)).Nodup → (∀ i, next ≤ i → nlookup i mds = none) →
+    (∀ kv ∈ donor, (nlookup kv.2 mds).isSome = true) → (∀ k id, alookup k recv = some id → id < next) →
+    (∀ i o, nlookup i mds = some o → nlookup i (mergeDict opt recv donor mds next).2.1 = some o) ∧
+    (∀ k id, alookup k (mergeDict opt recv donor mds next).1 = some id → next ≤ id →
+      ∃ v, alookup k donor = some v ∧
+        nlookup id (mergeDict opt recv donor mds next).2.1 = some { name := k, content := contentOf v mds })
+  | [], recv, mds, next, _, _, _, hold => by
+    refine ⟨fun i o h => h, fun k id h hle => ?_⟩
+    simp only [mergeDict, List.foldl_nil] at h
+    exact absurd (hold k id h) (by omega)
+  | (k0, v0) :: rest, recv, mds, next, hnd, hfresh, hdon, hold => by
+    simp only [List.map_cons, List.nodup_cons] at hnd
+    have hnone : alookup k0 rest = none := by
+      cases h : alookup k0 rest with
+      | none => rfl
+      | some w =>
+        exfalso
+        apply hnd.1
+        clear hdon
+        induction rest with
+        | nil => simp [alookup] at h
+        | cons x xs ih =>
+          obtain ⟨xk, xv⟩ := x
+          simp only [alookup] at h
+          simp only [List.map_cons, List.mem_cons]
+          split at h
+          · next e => exact Or.inl e.symm
+          · simp only [List.map_cons, List.mem_cons, not_or, List.nodup_cons] at hnd
+            exact Or.inr (ih ⟨hnd.1.2, hnd.2.2⟩ h)
+    -- does this step create a copy?
+    by_cases hskip : opt = .copy ∧ (alookup k0 recv).isSome = true
+    · -- conflict under 'copy': skipped
+      have hstep : mergeDict opt recv ((k0, v0) :: rest) mds next = mergeDict opt recv rest mds next := by
+        simp only [mergeDict, List.foldl_cons, mergeStep, hskip.1, hskip.2, if_true]
+      rw [hstep]
+      obtain ⟨ha, hb⟩ := C13_copies_content opt hopt rest recv mds next hnd.2 hfresh
+        (fun kv h => hdon kv (List.mem_cons_of_mem _ h)) hold
+      refine ⟨ha, fun k id h hle => ?_⟩
+      obtain ⟨v, hv, hn⟩ := hb k id h hle
+      refine ⟨v, ?_, hn⟩
+      simp only [alookup]
+      split
+      · next e => subst e; rw [hnone] at hv; cases hv
+      · exact hv
+    · -- a copy is made
+      have hstep : mergeDict opt recv ((k0, v0) :: rest) mds next =
+          mergeDict opt (aset k0 next recv) rest (mds ++ [(next, { name := k0, content := contentOf v0 mds })]) (next + 1) := by
+        cases hopt with
+        | inl e =>
+          subst e
+          have : (alookup k0 recv).isSome = false := by
+            cases h : (alookup k0 recv).isSome with
+            | false => rfl
+            | true => exact absurd ⟨rfl, h⟩ hskip
+          simp only [mergeDict, List.foldl_cons, mergeStep, this, Bool.false_eq_true, if_false]; rfl
+        | inr e =>
+          subst e
+          simp only [mergeDict, List.foldl_cons, mergeStep]; rfl
+      rw [hstep]
+      have hfresh' : ∀ i, next + 1 ≤ i → nlookup i (mds ++ [(next, { name := k0, content := contentOf v0 mds })]) = none := by
+        intro i hi
+        rw [nlookup_append, hfresh i (by omega)]
+        simp only [nlookup]
+        have : next ≠ i := by omega
+        simp [this]
+      have hstable : ∀ i o, nlookup i mds = some o →
+          nlookup i (mds ++ [(next, { name := k0, content := contentOf v0 mds })]) = some o := by
+        intro i o h; rw [nlookup_append, h]
+      obtain ⟨ha, hb⟩ := C13_copies_content opt hopt rest (aset k0 next recv)
+        (mds ++ [(next, { name := k0, content := contentOf v0 mds })]) (next + 1) hnd.2 hfresh'
+        (fun kv h => by
+          obtain ⟨o, ho⟩ := Option.isSome_iff_exists.mp (hdon kv (List.mem_cons_of_mem _ h))
+          rw [hstable _ o ho]; rfl)
+        (fun k id h => by
+          by_cases hk : k = k0
+          · subst hk; rw [alookup_aset_same] at h; cases h; omega
+          · rw [alookup_aset_other _ _ _ _ hk] at h
+            exact Nat.lt_succ_of_lt (hold k id h))
+      refine ⟨fun i o h => ha i o (hstable i o h), fun k id h hle => ?_⟩
+      by_cases hid : next + 1 ≤ id
+      · obtain ⟨v, hv, hn⟩ := hb k id h hid
+        have hkne : k ≠ k0 := by intro e; subst e; rw [hnone] at hv; cases hv
+        refine ⟨v, by simp only [alookup, Ne.symm hkne, if_false]; exact hv, ?_⟩
+        -- the content of the donor's object is the same in the extended store
+        obtain ⟨o, ho⟩ := Option.isSome_iff_exists.mp (hdon (k, v) (List.mem_cons_of_mem _ (alookup_mem' k v rest hv)))
+        have ho' : nlookup v mds = some o := ho
+        have : contentOf v (mds ++ [(next, { name := k0, content := contentOf v0 mds })]) = contentOf v mds :=
+          contentOf_congr v _ _ ((hstable v o ho').trans ho'.symm)
+        rw [← this]; exact hn
+      · -- id = next: the copy made in this step, which later steps leave alone
+        have hidn : id = next := by omega
+        subst hidn
+        have hnew : nlookup id (mds ++ [(id, { name := k0, content := contentOf v0 mds })]) =
+            some { name := k0, content := contentOf v0 mds } := by
+          rw [nlookup_append, hfresh id (Nat.le_refl _)]; simp [nlookup]
+        have hkept := ha id _ hnew
+        -- which key refers to it?  only k0 can: later copies have larger ids, older entries smaller ones
+        have hk : k = k0 := by
+          apply Classical.byContradiction
+          intro hk
+          -- the entry for k after the remaining steps is either an older entry of recv (id < next) or a later copy (id > next)
+          have := key_of_new_id opt hopt rest (aset k0 id recv)
+            (mds ++ [(id, { name := k0, content := contentOf v0 mds })]) (id + 1) k id h
+          cases this with
+          | inl h1 => rw [alookup_aset_other _ _ _ _ hk] at h1; exact absurd (hold k id h1) (by omega)
+          | inr h1 => omega
+        subst hk
+        exact ⟨v0, by simp [alookup], hkept⟩
+
+/-! ### from the loop to the heap: where the merged dict ends up -/
+
+theorem ForestFind.findIn_self' (t : RNode) : findIn t.id t = some t := by cases t; simp [findIn, RNode.id]
+
+
+mutual
+theorem findIn_updateIn_same (id : Nat) (f : RNode → RNode) (hf : ∀ p, (f p).id = p.id) : ∀ (t : RNode),
+    findIn id (updateIn id f t) = (findIn id t).map f
+  | .mk i n r ro tp m ks => by
+    by_cases hi : i = id
+    · have h1 : updateIn id f (.mk i n r ro tp m ks) = f (.mk i n r ro tp m ks) := by simp [updateIn, hi]
+      have h2 : findIn id (.mk i n r ro tp m ks) = some (.mk i n r ro tp m ks) := by simp [findIn, hi]
+      rw [h1, h2]
+      have := hf (.mk i n r ro tp m ks)
+      have hid : (f (.mk i n r ro tp m ks)).id = id := by rw [this]; exact hi
+      rw [← hid]
+      simp only [Option.map_some]
+      exact ForestFind.findIn_self' _
+    · simp only [updateIn, findIn, if_neg hi]
+      exact findInList_updateInList_same id f hf ks
+theorem findInList_updateInList_same (id : Nat) (f : RNode → RNode) (hf : ∀ p, (f p).id = p.id) : ∀ (ks : List RNode),
+    findInList id (updateInList id f ks) = (findInList id ks).map f
+  | [] => by simp [updateInList, findInList]
+  | k :: ks => by
+    simp only [updateInList, findInList, findIn_updateIn_same id f hf k]
+    cases findIn id k with
+    | some x => rfl
+    | none => exact findInList_updateInList_same id f hf ks
+end
+
+theorem setMd_md (x : RNode) (m : List (String × Nat)) : (x.setMd m).md = m := by cases x; rfl
+theorem setMd_id (x : RNode) (m : List (String × Nat)) : (x.setMd m).id = x.id := by cases x; rfl
+
+/-- C13 at the level of the heap: after the metadata step of a graft / cut / force-add, the metadata dict of the
+    receiving root IS the dict the loop computed from the receiving root's and the donor root's dicts (so `C13_yes`,
+    `C13_overwrite`, `C13_copy`, `C13_copyover`, `C13_no`, `C13_copies_content` describe the receiving root) -/
+theorem C13_receiver_gets_merged (h : Heap) (opt : MdOpt) (oldRootId newRootId : Nat) (oldR newR : RNode)
+    (ho : h.find oldRootId = some oldR) (hn : h.find newRootId = some newR) :
+    ((mergeMd h opt oldRootId newRootId).find newRootId).map RNode.md
+      = some (mergeDict opt newR.md oldR.md h.mds h.nextMd).1 ∧
+    (mergeMd h opt oldRootId newRootId).mds = (mergeDict opt newR.md oldR.md h.mds h.nextMd).2.1 := by
+  simp only [Heap.find] at ho hn
+  simp only [mergeMd, Heap.find, ho, hn, and_true]
+  rw [findInList_updateInList_same newRootId _ (fun p => setMd_id p _), hn]
+  simp [setMd_md]
+
 /-- the five options the source accepts are the five documented ones (table regenerated from node.py) -/
 theorem C13_table : EmdGen.mergeOptions = ["True", "False", "copy", "overwrite", "copyover"] := by decide
 
